@@ -19,7 +19,7 @@
 (* The base module's actions are reused; logged fields are bound to the    *)
 (* model's variables; the base invariants are evaluated at every step.     *)
 (***************************************************************************)
-EXTENDS XXH32, TLC, Json
+EXTENDS XXH32Machine, TLC, Json
 
 CONSTANT TraceFile
 
